@@ -19,11 +19,17 @@ def nontrivial(case, sched, starts, info):
     return any(f in case.get("features", []) for f in ("Parallel", "Map", "Wait", "task-value", "task-error", "task-error-then-ok")) or "Task" in str(case["definition"])
 
 
+def variants():
+    from hypothesis import strategies as st
+    # a worker that answers every request twice (the second reply is an orphan and must still be acknowledged once)
+    return st.sampled_from([{}, {}, {}, {"dup_replies": 0.5}])
+
+
 mon.SPECS[PID] = mon.Spec(PID, ("ack", "exceptions"), RULE, [
     "the carrier invariant is evaluated between handler invocations (after every scheduler step), the ordering clause on every broker operation inside the handlers",
     "orphaned_response_retention_ms is set to 3 s so that replies to cancelled tasks are released within the run (production default: 10 min)",
     "attribution of a publish to an event = same handler context (delivery, timers armed in it, reply correlated to its task request); publishes that cannot be attributed are not asserted",
-], cfg=CFG, nontrivial=nontrivial)
+], cfg=CFG, nontrivial=nontrivial, variants=variants)
 
 
 def main(tier, seed, replay=None):
